@@ -622,6 +622,12 @@ fn emit(isa: Isa, item: &Item, at: u64, tgt: u64, near: bool, disp: [u64; 2]) ->
                 let (b, t) = x86_simple(isa, s);
                 vec![raw(b, Kind::Plain, None, t)]
             }
+            Item::Cond { cc, .. } if !near && *cc >= 16 => {
+                // the count-register branches exist with an 8-bit displacement only: jecxz
+                // (32-bit mode) and loop
+                let (op, name) = if *cc == 16 && isa == Isa::X86 { (0xe3u8, "jecxz") } else { (0xe2u8, "loop") };
+                vec![raw(vec![op, rel(tgt, at + 2) as i8 as u8], Kind::Cond, Some(tgt), format!("{} 0x{:x}", name, tgt))]
+            }
             Item::Cond { cc, .. } => {
                 let cc = X86_CC[*cc as usize % X86_CC.len()];
                 let b = if near {
